@@ -1,6 +1,7 @@
 SPECIFICATION Spec
 CONSTANTS
   Small = TRUE
+  Mix = FALSE
   EmitOn = FALSE
 INVARIANT TsRestoredWhenIdle
 INVARIANT OffsetIsRelativeStart
